@@ -170,6 +170,7 @@ impl Aml for ProcessorNode {
     fn to_aml_bytes(&self, sink: &mut dyn AmlSink) {
         let reserved: u16 = 0;
 
+        assert!(self.len() <= u8::MAX as usize);
         sink.byte(NodeType::Processor as u8);
         sink.byte(self.len() as u8);
         sink.word(reserved);
